@@ -71,10 +71,31 @@ def run(ctx):
         LS = _lo(P, f, pc)
         idom = _doms(f)
         pos_atoms = set()
-        for s in stores:
+        def validated(s):
             val = C.val(s.ops[0])
             F = Facts(P, f, s.bb)
-            ok = any(p == 'eq' and b == '0' and a.startswith('@is_invalid_fragment(') and val in a for p, a, b in F.facts)
+            return any(p == 'eq' and b == '0' and a.startswith('@is_invalid_fragment(') and val in a for p, a, b in F.facts)
+        # "take over all candidates, then squeeze out the ones that fail": a first pass may copy the caller's list as it is when a
+        # later pass over the same list re-stores (compacts) only validated entries from position 0 on - what the consumer is given
+        # is then the prefix the second pass wrote
+        vstores = [s for s in stores if validated(s)]
+        plain = [s for s in stores if not validated(s)]
+        takeover = []
+        if vstores and plain:
+            for s in plain:
+                Ls, Lv = _inn(LS, s.bb), _inn(LS, vstores[0].bb)
+                vd = f.defs.get(strip_ptr_casts(f, s.ops[0]))
+                from_caller = vd is not None and vd.op == 'load' and pc.ptr(vd.ops[0])[0] == f'arg{ap}'
+                from_list = all((lambda d_: d_ is not None and d_.op == 'load' and d_.ops[0] in A)(f.defs.get(strip_ptr_casts(f, v_.ops[0]))) for v_ in vstores)
+                earlier = Ls is not None and Lv is not None and Ls.header is not Lv.header and Lv.header not in Ls.body and \
+                    all(_dom(idom, xb, Lv.header) or xs_ is Lv.header or _dom(idom, xs_, Lv.header) for xb, xs_ in Ls.exits)
+                if from_caller and from_list and earlier:
+                    takeover.append(s)
+        for s in stores:
+            if s in takeover:
+                continue
+            val = C.val(s.ops[0])
+            ok = validated(s)
             if not ok:
                 problems.append(f'line {s.line}: {val} is stored into the list without a dominating is_invalid_fragment(desc, that fragment) == 0')
             L = _inn(LS, s.bb)
@@ -212,6 +233,21 @@ def run(ctx):
             pt = L.ptr_at_iteration(*pc.ptr(ld.ops[0]))
             ab = affine_in_t(pt[1]) if pt is not None else None
             okarg = pt is not None and pt[0] == f'arg{ap}' and ab is not None and ab[0].is_zero() and ab[1] == Poly.const(8)
+        if not okarg and ld is not None and ld.op == 'load' and pt is not None and ab is not None and ab[0].is_zero() and ab[1] == Poly.const(8):
+            # the element of a local list that an earlier loop filled with a verbatim copy of the caller's list (slot i = fragment i)
+            LS20 = loops_of(P, f, pc)
+            for st_ in [i for i in f.insts() if i.op == 'store' and i.ty == 'i8*']:
+                L1 = innermost(LS20, st_.bb)
+                if L1 is None or L1.header is L.header or L.header in L1.body:
+                    continue
+                g1 = [g_ for g_ in L1.guards() if g_.block is L1.header and L1.trip(g_) is not None and L1.trip(g_) == want]
+                dp_ = L1.ptr_at_iteration(*pc.ptr(st_.ops[1]))
+                vd_ = f.defs.get(strip_ptr_casts(f, st_.ops[0]))
+                sp_ = L1.ptr_at_iteration(*pc.ptr(vd_.ops[0])) if vd_ is not None and vd_.op == 'load' else None
+                if g1 and dp_ is not None and sp_ is not None and dp_[0] == pt[0] and sp_[0] == f'arg{ap}':
+                    da_, sa_ = affine_in_t(dp_[1]), affine_in_t(sp_[1])
+                    if da_ is not None and sa_ is not None and da_[0].is_zero() and sa_[0].is_zero() and da_[1] == Poly.const(8) and sa_[1] == Poly.const(8) and len(L1.exits) == 1:
+                        okarg = True
         if not okarg:
             probs.append('the validated element is not available_fragments[i] for i = 0 .. num_fragments-1')
         # every other way out of the loop is an error return (negative), e.g. allocation failure - not a silent stop
